@@ -15,6 +15,9 @@ use std::time::{Duration, Instant};
 #[derive(Serialize, Deserialize, Clone, Copy, Debug, PartialEq, Eq, Hash)]
 pub enum StepOut {
     Ok,
+    /// the wrapped sink accepts the metric but reports `Ok(0)` (as `NopMetricSink` and
+    /// deferring sinks do; the `MetricSink::emit` docs say this is not an error)
+    OkZero,
     /// io::ErrorKind index
     Err(u8),
     Panic,
@@ -53,6 +56,9 @@ pub struct GateState {
     pub open: Option<StepOut>,
     /// outcome to use if the wrapped sink is (wrongly) run on a caller's thread
     pub caller_outcome: Option<StepOut>,
+    /// free-running mode with a repeating outcome pattern: metric #seq gets
+    /// `open_cycle[seq % len]` (takes precedence over `open`)
+    pub open_cycle: Option<Vec<StepOut>>,
 }
 
 #[derive(Default)]
@@ -102,6 +108,12 @@ impl Gate {
     pub fn set_open(&self, o: Option<StepOut>) {
         let mut g = self.lock();
         g.open = o;
+        self.cv.notify_all();
+    }
+
+    pub fn set_open_cycle(&self, c: Option<Vec<StepOut>>) {
+        let mut g = self.lock();
+        g.open_cycle = c;
         self.cv.notify_all();
     }
 
@@ -160,6 +172,11 @@ impl MetricSink for GatedSink {
             if let Some(o) = g.permits.pop_front() {
                 break o;
             }
+            if let Some(c) = &g.open_cycle {
+                if !c.is_empty() {
+                    break c[seq % c.len()];
+                }
+            }
             if let Some(o) = g.open {
                 break o;
             }
@@ -174,6 +191,7 @@ impl MetricSink for GatedSink {
         drop(g);
         match outcome {
             StepOut::Ok => Ok(metric.len()),
+            StepOut::OkZero => Ok(0),
             StepOut::Err(k) => Err(util::token_error(k, seq as u64)),
             StepOut::Panic => panic!("{} (wrapped sink, metric #{})", HARNESS_PANIC, seq),
         }
